@@ -51,10 +51,79 @@ def evaluate(ck, data, rules, docg):
     return {"fix_runs_reread": n, "reread_identical_and_report_equal": same, "evaluations": n}
 
 
+def _cli_case(job):
+    """--fix through the command line, then a plain run on the file it wrote: the two JSON reports must agree"""
+    import os, json, shutil, tempfile, random, yaml
+
+    k, src, seed = job
+    r = random.Random("c08cli:" + os.path.relpath(src, vlib.REPO))  # the configuration belongs to the file: the thorough tier (every file) contains every run quick can sample
+    d = tempfile.mkdtemp(prefix="c08c_", dir=vlib.BUILD)
+    out = {"src": src, "problem": None, "cfg": None}
+    try:
+        f = os.path.join(d, "f.vhd")
+        shutil.copy(src, f)
+
+        def run(args, jf):
+            vlib.sh(vlib.vsg_cmd() + ["-f", "f.vhd", "-p", "1", "--json", jf] + args, cwd=d, env=vlib.repo_env(), timeout=900)
+            try:
+                return sorted((v["rule"], v["linenumber"], v["solution"], v.get("severity")) for fe in json.load(open(os.path.join(d, jf)))["files"] for v in fe["violations"])
+            except Exception:
+                return None
+
+        pre = run(["-ap"], "p.json")
+        if not pre:
+            return out
+        ids = sorted({v[0] for v in pre})
+        cfg = {"rule": {}}
+        # a configuration under which some reported rules stay unrepaired and some are only warnings
+        for rid in r.sample(ids, min(len(ids), r.randint(1, 4))):
+            cfg["rule"][rid] = r.choice([{"fixable": False}, {"severity": "Warning"}, {"severity": "Warning", "fixable": False}])
+        if r.random() < 0.34:
+            cfg = {}
+        args = []
+        if cfg:
+            open(os.path.join(d, "c.yaml"), "w").write(yaml.safe_dump(cfg))
+            args = ["-c", "c.yaml"]
+        out["cfg"] = cfg
+        a = run(args + ["--fix"], "a.json")
+        b = run(args, "b.json")
+        if a is None or b is None:
+            return out
+        if a != b:
+            only_a = [v for v in a if v not in b][:3]
+            only_b = [v for v in b if v not in a][:3]
+            out["problem"] = {"only_after_fix": only_a, "only_fresh": only_b}
+    finally:
+        shutil.rmtree(d, ignore_errors=True)
+    return out
+
+
+def cli_extra(ck, data, rules, docg):
+    import os
+    from multiprocessing import Pool
+    import corpus
+
+    r = vlib.rng("c08cli")
+    pool = [f for f in corpus.files() if f.endswith("test_input.vhd") and 300 < os.path.getsize(f) < 6000]
+    jobs = [(k, f, vlib.seed()) for k, f in enumerate(sorted(pool) if ck.tier == "thorough" else r.sample(sorted(pool), 16))]
+    with Pool(vlib.NCPU) as p:
+        res = p.map(_cli_case, jobs, chunksize=1)
+    bad = 0
+    for o in res:
+        if o["problem"]:
+            bad += 1
+            pr = o["problem"]
+            site = (pr["only_after_fix"] or pr["only_fresh"])[0][0]
+            ck.violation("cli-report-after-fix-differs:" + site, "%s under %r: the report of `vsg --fix` differs from the report of a plain run on the file it wrote: only after the fix %r, only fresh %r" % (os.path.relpath(o["src"], vlib.REPO), o["cfg"], pr["only_after_fix"], pr["only_fresh"]),
+                         {"kind": "input", "file": os.path.relpath(o["src"], vlib.REPO), "config": o["cfg"], "oracle": "cli-report", "detail": pr})
+    ck.cov["cli_fix_then_check"] = {"files": len(jobs), "with_configuration": len([o for o in res if o["cfg"]]), "reports_differ": bad}
+
+
 def run(tier):
     return T.run_prop("C08", tier, "translation_validation", evaluate,
                       "every observed fix run of the shared trace: the emitted text is parsed again with the real parser and compared token by token (class, value, indent level) with the in-memory model; the all-phases report of the in-memory rule list is compared with that of a fresh rule list on the re-read file; the extracted checker evaluates the reader shape (C08_reread_requires_shape), glued code tokens and adjacent whitespace tokens after every rule application and names the application after which the model stopped being something the reader can return",
-                      ["indent levels are compared through the real set_token_indent (258 lines of table-driven state, not modelled)", "the lexical half rests on C04's emit_read / tokenizer theorems; this check is the differential for the part that is not modelled"])
+                      ["indent levels are compared through the real set_token_indent (258 lines of table-driven state, not modelled)", "the lexical half rests on C04's emit_read / tokenizer theorems; this check is the differential for the part that is not modelled",
+                       "through the command line: `vsg --fix --json` against `vsg --json` on the written file, with and without a configuration that leaves reported rules unrepaired (fixable: false) or turns them into warnings"], extra=cli_extra)
 
 
 def replay(rp):
